@@ -736,17 +736,18 @@ def slice_mesh_plane(
         kwargs["process"] = False
 
     # slice away specified planes
-    for origin, normal in zip(
-        plane_origin.reshape((-1, 3)), plane_normal.reshape((-1, 3))
+    for plane_count, (origin, normal) in enumerate(
+        zip(plane_origin.reshape((-1, 3)), plane_normal.reshape((-1, 3)))
     ):
-        # save the new vertices and faces
+        # save the new vertices and faces: `face_index` refers to the faces
+        # of the original mesh and the first plane returns only that subset
         vertices, faces, uv = slice_faces_plane(
             vertices=vertices,
             faces=faces,
             uv=uv,
             plane_normal=normal,
             plane_origin=origin,
-            face_index=face_index,
+            face_index=face_index if plane_count == 0 else None,
         )
         # check if cap arg specified
         if cap:
